@@ -120,7 +120,7 @@ def write_results():
         own = m.get("property")
         own_hit = ", ".join(sorted({k.split(":")[0] for k in nv.get(own, [])}))
         others = "; ".join("%s: %s" % (p, ", ".join(sorted({k.split(":")[0] for k in ks}))) for p, ks in sorted(nv.items()) if p != own)
-        status = "detected" if nv.get(own) else ("detected (other property only)" if nv else
+        status = ("obsolete (was: %s)" % ("detected" if nv else "missed")) if m.get("obsolete") else "detected" if nv.get(own) else ("detected (other property only)" if nv else
                                                  ("not statically detectable" if m.get("not_statically_detectable") else "MISSED"))
         rows.append((sid, "%s (r%s)" % (own, m.get("round", 1)), m.get("title", "")[:90], m.get("needs_to_manifest", "")[:160].replace("\n", " "),
                      status, m.get("first_evaluation", "-"), own_hit, others))
@@ -140,6 +140,10 @@ def write_results():
                 m = json.load(open(mp))
                 if m.get("not_statically_detectable"):
                     fh.write("\n* %s: %s\n" % (sid, m["not_statically_detectable"]))
+                if m.get("obsolete"):
+                    fh.write("\n* %s: %s\n" % (sid, m["obsolete"]))
+                if m.get("rebased"):
+                    fh.write("\n* %s: %s\n" % (sid, m["rebased"][:200]))
 
 
 def main(argv):
@@ -152,6 +156,8 @@ def main(argv):
     if len(argv) >= 2 and argv[1] == "eval":
         ids = argv[2:] or sorted(os.listdir(SEEDED))
         ids = [i for i in ids if os.path.isdir(os.path.join(SEEDED, i))]
+        # seeds made obsolete by a later `fix:` commit keep their last evaluation (made on the tree they were written for)
+        ids = [i for i in ids if not json.load(open(os.path.join(SEEDED, i, "meta.json"))).get("obsolete")]
         with ThreadPoolExecutor(max_workers=int(os.environ.get("VERIF_JOBS", "4"))) as ex:
             results = list(ex.map(evaluate, ids))
         for sid, fired, err in results:
